@@ -167,3 +167,21 @@ PROPS["C16"] = dict(
     outside="N>4, R>3, P>3; the distribution of placements (only possibility of difference is decided, not uniformity); embedding of the placement in the create-dataset proposal is covered by the C12/C14 harnesses",
     assumptions=COMMON_ASSUME + ["math/rand.Shuffle is replaced by a Fisher-Yates stub whose every choice is a path decision"],
 )
+
+PROPS["C09"] = dict(
+    level="model_checking",
+    technique="bounded symbolic execution of go/ssa (gosmt) with modelled goroutines/channels/select: schedules and select choices are path decisions, scores are solver variables (z3), rank oracle",
+    explanation="real Dataset.Search with its worker goroutines and collector over harness pb.SearchClient implementations: 1-2 partitions on 2 nodes with every replica choice, 0-2 items per partition with symbolic scores, per-node failure at open or mid-stream, k in 0..2",
+    runs={
+        "quick": [dict(pkg="./storage", entry="VerifC09", bounds="maxp=2", reach=["searched", "end"])],
+        "thorough": [
+            dict(pkg="./storage", entry="VerifC09", bounds="maxp=2,preempt=1", reach=["searched", "end"]),
+            dict(pkg="./storage", entry="VerifC09", bounds="maxp=3,items=1,maxk=2,failmodes=2", reach=["searched", "end"]),
+        ],
+    },
+    outside="more than 3 partitions / 2 remote nodes; preemption between synchronisation operations (interleavings are explored at channel/lock/spawn granularity: blocking switches plus the stated number of voluntary preemptions); timeouts; the gRPC layer; SearchPartitions' local leg shares the collector code but is not separately driven",
+    assumptions=COMMON_ASSUME + ["remote search services are harness implementations of pb.SearchClient / pb.Search_SearchPartitionsClient",
+                                 "goroutines are interleaved at synchronisation points only (channel ops, select, locks, go, WaitGroup)"],
+    replay_attempts=300,
+    gomaxprocs1=True,
+)
